@@ -561,3 +561,21 @@ func init() {
 		return nil, irPushed
 	})
 }
+
+func init() {
+	// sync.Pool: every Get allocates afresh (a legal behaviour of the pool), Put forgets.
+	reg("(*sync.Pool).Get", func(in *Interp, g *Goroutine, c *callCtx) (Value, int) {
+		p := c.args[0].(*PtrV)
+		if p.C == nil {
+			in.goPanic(g, &PanicV{Kind: "nil", Msg: "nil *sync.Pool"})
+			return nil, irPanic
+		}
+		// field "New func() any" is the last field of sync.Pool
+		nf, _ := in.load(p.C.Kids[len(p.C.Kids)-1]).(*FuncV)
+		if isNilFunc(nf) {
+			return done(&IfaceV{})
+		}
+		return done(in.callSync(g, nf, nil))
+	})
+	reg("(*sync.Pool).Put", func(in *Interp, g *Goroutine, c *callCtx) (Value, int) { return done(nil) })
+}
